@@ -944,6 +944,15 @@ class Program:
         STATS.setdefault("fns", set()).add(path)
         return f
 
+    def fn_inl(self, path, wanted=None, depth=2):
+        """fn(path) with private helpers (that contain calls matching `wanted`) inlined."""
+        f = self.fn(path)
+        key = (path, tuple(wanted) if wanted else None, depth)
+        cache = self.__dict__.setdefault("_inl", {})
+        if key not in cache:
+            cache[key] = inline_private_helpers(self, f, wanted=wanted, depth=depth)
+        return cache[key]
+
     def has_fn(self, path):
         return path in self.fns
 
@@ -1178,3 +1187,152 @@ def _block_places(b):
     elif t["k"] == "drop":
         out.append(t["place"])
     return out
+
+
+# --------------------------------------------------------------------------
+# bounded inlining of private crate-local helpers (so that extracting a helper
+# does not change a rule's verdict)
+
+import copy as _copy
+
+
+def _renum_place(pl, lo):
+    out = {"l": pl["l"] + lo, "p": []}
+    for e in pl["p"]:
+        if isinstance(e, dict) and "idx" in e:
+            e = dict(e)
+            e["idx"] = e["idx"] + lo
+        out["p"].append(e)
+    return out
+
+
+def _renum_operand(op, lo):
+    if "copy" in op:
+        return {"copy": _renum_place(op["copy"], lo)}
+    if "move" in op:
+        return {"move": _renum_place(op["move"], lo)}
+    return op
+
+
+def _renum_rv(rv, lo):
+    rv = dict(rv)
+    for k in ("a", "b"):
+        if k in rv and isinstance(rv[k], dict):
+            rv[k] = _renum_operand(rv[k], lo)
+    if "place" in rv:
+        rv["place"] = _renum_place(rv["place"], lo)
+    if "fields" in rv:
+        rv["fields"] = [_renum_operand(f, lo) for f in rv["fields"]]
+    return rv
+
+
+def _renum_block(b, lo, bo, ret_to, dest):
+    nb = {"id": b["id"] + bo, "stmts": []}
+    if b.get("cleanup"):
+        nb["cleanup"] = True
+    for s in b["stmts"]:
+        s = dict(s)
+        if s["k"] == "assign":
+            s["lhs"] = _renum_place(s["lhs"], lo)
+            s["rv"] = _renum_rv(s["rv"], lo)
+        elif s["k"] == "set_discr":
+            s["lhs"] = _renum_place(s["lhs"], lo)
+        elif s["k"] == "dead":
+            s["l"] = s["l"] + lo
+        nb["stmts"].append(s)
+    t = dict(b["term"])
+    k = t["k"]
+    if k == "return":
+        nb["stmts"].append({"k": "assign", "lhs": dest, "rv": {"k": "use", "a": {"move": {"l": lo, "p": []}}}, "at": t.get("at")})
+        t = {"k": "goto", "target": ret_to, "at": t.get("at")} if ret_to is not None else {"k": "unreachable", "at": t.get("at")}
+    else:
+        if "target" in t and isinstance(t["target"], int):
+            t["target"] = t["target"] + bo
+        if "otherwise" in t:
+            t["otherwise"] = t["otherwise"] + bo
+        if "arms" in t:
+            t["arms"] = [dict(a, target=a["target"] + bo) for a in t["arms"]]
+        if isinstance(t.get("unwind"), int):
+            t["unwind"] = t["unwind"] + bo
+        if "discr" in t:
+            t["discr"] = _renum_operand(t["discr"], lo)
+        if "args" in t:
+            t["args"] = [_renum_operand(a, lo) for a in t["args"]]
+        if "dest" in t:
+            t["dest"] = _renum_place(t["dest"], lo)
+        if "place" in t:
+            t["place"] = _renum_place(t["place"], lo)
+        if "cond" in t:
+            t["cond"] = _renum_operand(t["cond"], lo)
+        if "ops" in t:
+            t["ops"] = [_renum_operand(o, lo) for o in t["ops"]]
+        if "func" in t and isinstance(t["func"], dict):
+            t["func"] = _renum_operand(t["func"], lo)
+    nb["term"] = t
+    return nb
+
+
+def inline_private_helpers(prog, fn, wanted=None, depth=2, max_blocks=120):
+    """Synthetic Fn with calls to private, non-recursive, crate-local helper functions spliced in.
+    `wanted`: only helpers whose (static) cone contains a call matching one of these callee patterns
+    are inlined; None = every eligible helper."""
+    d = {k: v for k, v in fn.d.items() if k not in ("blocks", "locals")}
+    locals_ = list(fn.locals)
+    blocks = [_copy.copy(b) for b in fn.blocks]
+    inlined = []
+
+    def eligible(path, stack):
+        cf = prog.fns.get(path)
+        if cf is None or path in stack or path == fn.path:
+            return None
+        if cf.kind not in ("Fn", "AssocFn") or cf.d.get("impl_trait"):
+            return None
+        if (cf.vis or "").startswith("Public"):
+            return None
+        if cf.n > max_blocks:
+            return None
+        if wanted is not None:
+            # direct static call closure only (no trait dispatch, no callbacks)
+            seen, todo = {path}, [path]
+            while todo:
+                x = todo.pop()
+                for c in prog.fns[x].calls():
+                    t = c.t
+                    if t.get("dispatch") == "static" and t.get("resolved_local") and t["resolved"] in prog.fns and t["resolved"] not in seen \
+                            and prog.fns[t["resolved"]].kind in ("Fn", "AssocFn") and not prog.fns[t["resolved"]].d.get("impl_trait"):
+                        seen.add(t["resolved"])
+                        todo.append(t["resolved"])
+            if not any(prog.fns[x].calls(w) for x in seen for w in wanted):
+                return None
+        return cf
+
+    work = [(i, (fn.path,), 0) for i in range(len(blocks))]
+    while work:
+        bi, stack, dep = work.pop()
+        t = blocks[bi]["term"]
+        if t["k"] != "call" or t.get("dispatch") != "static" or not t.get("resolved_local") or dep >= depth:
+            continue
+        cf = eligible(t["resolved"], stack)
+        if cf is None:
+            continue
+        lo, bo = len(locals_), len(blocks)
+        locals_.extend(cf.locals)
+        nb = dict(blocks[bi])
+        nb["stmts"] = list(nb["stmts"])
+        for i, a in enumerate(t.get("args", [])):
+            nb["stmts"].append({"k": "assign", "lhs": {"l": lo + 1 + i, "p": []}, "rv": {"k": "use", "a": a}, "at": t.get("at")})
+        nb["term"] = {"k": "goto", "target": bo, "at": t.get("at")}
+        blocks[bi] = nb
+        for cb in cf.blocks:
+            blocks.append(_renum_block(cb, lo, bo, t.get("target"), t["dest"]))
+        inlined.append(cf.path)
+        for j in range(bo, len(blocks)):
+            work.append((j, stack + (cf.path,), dep + 1))
+    if not inlined:
+        return fn
+    d["locals"] = locals_
+    d["blocks"] = blocks
+    d["arg_count"] = fn.nargs
+    nf = Fn(prog, fn.path, d)
+    nf.inlined = inlined
+    return nf
